@@ -431,6 +431,10 @@ func main() {
 		orb.Collection{orb.Point{7, 8}},
 		orb.Collection{orb.Point{1, 2}, orb.LineString{{3, 4}, {5, 6}}, orb.Polygon{{{0, 0}, {1, 0}, {1, 1}, {0, 0}}}},
 		orb.Collection{},
+		// three parts on one level: one separator can be re-spelled while its neighbour stays as printed
+		orb.MultiLineString{{{1, 2}, {3, 4}}, {{5, 6}, {7, 8}}, {{9, 1}, {2, 3}}},
+		orb.Polygon{{{0, 0}, {9, 0}, {9, 9}, {0, 0}}, {{1, 1}, {2, 1}, {2, 2}, {1, 1}}, {{4, 1}, {5, 1}, {5, 2}, {4, 1}}},
+		orb.MultiPolygon{{{{0, 0}, {4, 0}, {4, 4}, {0, 0}}}, {{{5, 5}, {6, 5}, {6, 6}, {5, 5}}}, {{{7, 7}, {8, 7}, {8, 8}, {7, 7}}, {{7.25, 7.1}, {7.5, 7.1}, {7.5, 7.3}, {7.25, 7.1}}, {{7.6, 7.1}, {7.9, 7.1}, {7.9, 7.8}, {7.6, 7.1}}}},
 	}
 	ws := []string{" ", "\t", "\n"}
 	edits := ev.Pick(r, 2, 3)
